@@ -40,6 +40,18 @@ type LazyCloser struct{ Closer }
 
 func (c *LazyCloser) LazyInit() {}
 
+// Stateless closers: zero-size struct types (all such objects share one address in Go).
+var zcalls [3]int32
+var zgate chan struct{}
+
+type ZCloser0 struct{}
+type ZCloser1 struct{}
+type ZCloser2 struct{}
+
+func (*ZCloser0) Close() error { atomic.AddInt32(&zcalls[0], 1); <-zgate; return nil }
+func (*ZCloser1) Close() error { atomic.AddInt32(&zcalls[1], 1); <-zgate; return nil }
+func (*ZCloser2) Close() error { atomic.AddInt32(&zcalls[2], 1); <-zgate; return errors.New("stateless closer failed") }
+
 // Bystander: an ordinary component that is not a closer.
 type Bystander struct{ N int }
 
@@ -66,24 +78,53 @@ func TestClose(t *testing.T) {
 				comps = append(comps, c)
 			}
 		}
+		// stateless (zero-size) closers next to the others
+		nz := rapid.IntRange(0, 3).Draw(t, "nzero")
+		zgate = make(chan struct{})
+		for i := range zcalls {
+			atomic.StoreInt32(&zcalls[i], 0)
+		}
+		for i := 0; i < nz; i++ {
+			comps = append(comps, []any{&ZCloser0{}, &ZCloser1{}, &ZCloser2{}}[i])
+		}
+		// one or two (overlapping) Close calls
+		ncalls := rapid.SampledFrom([]int{1, 1, 1, 2}).Draw(t, "closecalls")
 		release := rapid.Permutation(seq(n)).Draw(t, "release")
 		comps = rapid.Permutation(comps).Draw(t, "regorder")
 		out := kit.RunApp(app.SetComponents(comps...))
-		desc := fmt.Sprintf("n=%d failing=%d lazy=%d release=%v", n, failing, lazy, release)
+		desc := fmt.Sprintf("n=%d failing=%d lazy=%d zero-size=%d closecalls=%d release=%v", n, failing, lazy, nz, ncalls, release)
 		if !out.OK() {
 			t.Fatalf("C14: start failed: %v (%s)", out, desc)
 		}
 		closed := make(chan struct{})
 		var cpanic atomic.Value
-		go func() {
-			defer close(closed)
-			defer func() {
-				if r := recover(); r != nil {
-					cpanic.Store(fmt.Sprint(r))
-				}
+		var returned int32
+		for k := 0; k < ncalls; k++ {
+			go func() {
+				defer func() {
+					if atomic.AddInt32(&returned, 1) == 1 {
+						close(closed) // the FIRST call that returns is the one that must not be early
+					}
+				}()
+				defer func() {
+					if r := recover(); r != nil {
+						cpanic.Store(fmt.Sprint(r))
+					}
+				}()
+				out.App.Close()
 			}()
-			out.App.Close()
-		}()
+		}
+		if nz > 0 && n == 0 {
+			// only stateless closers: they share one gate
+			for y := 0; y < 20; y++ {
+				runtime.Gosched()
+			}
+			select {
+			case <-closed:
+				t.Fatalf("C14: App.Close returned while the stateless closers had not returned yet\n%s", desc)
+			default:
+			}
+		}
 		for k, idx := range release {
 			// give an early return every chance to show
 			for y := 0; y < 20; y++ {
@@ -95,7 +136,18 @@ func TestClose(t *testing.T) {
 			default:
 			}
 			close(cs[idx].gate)
+			if k == len(release)-1 && nz > 0 {
+				for y := 0; y < 20; y++ {
+					runtime.Gosched()
+				}
+				select {
+				case <-closed:
+					t.Fatalf("C14: App.Close returned while the stateless closers had not returned yet\n%s", desc)
+				default:
+				}
+			}
 		}
+		close(zgate)
 		// all gates are open: every call can finish. Wait for Close.
 		select {
 		case <-closed:
@@ -111,13 +163,25 @@ func TestClose(t *testing.T) {
 		if p := cpanic.Load(); p != nil {
 			t.Fatalf("C14: App.Close panicked: %v\n%s", p, desc)
 		}
+		// wait for the other overlapping call too (all gates are open)
+		for w := 0; atomic.LoadInt32(&returned) < int32(ncalls); w++ {
+			if w > 2000000 {
+				t.Fatalf("C14: an overlapping App.Close call never returned\n%s", desc)
+			}
+			runtime.Gosched()
+		}
 		for i, c := range cs {
 			calls, done := atomic.LoadInt32(&c.calls), atomic.LoadInt32(&c.done)
-			if calls != 1 {
-				t.Fatalf("C14: closer %d was invoked %d times (exactly once expected; failing=%v)\n%s", i, calls, c.fail, desc)
+			if calls != int32(ncalls) {
+				t.Fatalf("C14: closer %d was invoked %d times by %d Close call(s) (exactly once per call expected; failing=%v)\n%s", i, calls, ncalls, c.fail, desc)
 			}
-			if done != 1 {
+			if done != int32(ncalls) {
 				t.Fatalf("C14: App.Close returned before closer %d had returned\n%s", i, desc)
+			}
+		}
+		for i := 0; i < nz; i++ {
+			if got := atomic.LoadInt32(&zcalls[i]); got != int32(ncalls) {
+				t.Fatalf("C14: stateless closer %d was invoked %d times by %d Close call(s)\n%s", i, got, ncalls, desc)
 			}
 		}
 		inOrder := true
